@@ -278,7 +278,7 @@ func (fr *frame) cutLoopHeader(l *loopInfo, cur *State, env map[ssa.Value]Val, r
 	// 1. loop-init
 	te := fr.invEnv(l, cur, env)
 	for _, c := range invs {
-		vc.oblige("loop-init", fmt.Sprintf("%s#loop-init:loop%d", shortFn(fr.fn), l.ordinal), pos, "invariant "+c.Text+" ["+c.Src+"]", reach, te.formula(c.E), c.Tags)
+		vc.oblige("loop-init", fmt.Sprintf("%s#loop-init:loop%d", shortFn(fr.fn), l.ordinal), pos, "invariant "+c.Text+" ["+c.Src+"]", reach, te.goalFormula(c.E), c.Tags)
 	}
 	// 2. modified set by a speculative pass over the loop body
 	nAssert, nObl := len(vc.asserts), len(vc.obls)
@@ -337,6 +337,9 @@ func (fr *frame) cutLoopHeader(l *loopInfo, cur *State, env map[ssa.Value]Val, r
 		hv := vc.havocVal(phi.Type(), "loop_"+phi.Comment, "")
 		env[phi] = hv
 		if isRangeIndexPhi(phi) {
+			// the element index of this iteration, in the form the body's index instruction will have it:
+			// quantified invariants assumed below are instantiated at it (see noteIndexTerm)
+			vc.noteIndexTerm(wrapInt("(+ "+hv.t+" 1)", phi.Type()))
 			// structural facts of the range-over-slice lowering: -1 <= index, index+1 <= len
 			vc.assume("true", "(>= "+hv.t+" (- 1))")
 			for _, hi := range l.header.Instrs {
@@ -425,7 +428,7 @@ func (fr *frame) loopStep(l *loopInfo, st *State, env map[ssa.Value]Val, cond st
 		if !c.inSlice(vc.slice) {
 			continue
 		}
-		vc.oblige("loop-step", fmt.Sprintf("%s#loop-step:loop%d", shortFn(fr.fn), l.ordinal), pos, "invariant "+c.Text+" ["+c.Src+"]", cond, te.formula(c.E), c.Tags)
+		vc.oblige("loop-step", fmt.Sprintf("%s#loop-step:loop%d", shortFn(fr.fn), l.ordinal), pos, "invariant "+c.Text+" ["+c.Src+"]", cond, te.goalFormula(c.E), c.Tags)
 	}
 }
 
